@@ -381,10 +381,19 @@ def build_generator(scratch, gen):
     return out
 
 
-def generate(scratch, gen, universe, outdir, registry=None, extra_files=None, resources=None):
-    """Emit the manifest of `universe`, run the generator of the current tree into outdir/gen."""
+def generate(scratch, gen, universe, outdir, registry=None, extra_files=None, resources=None, genrot=None):
+    """Emit the manifest of `universe`, run the generator of the current tree into outdir/gen. With genrot the
+    generator runs under the map-iteration overlay with that iteration start (see lib/c12.py)."""
     emit = build_emit(scratch)
-    genbin = build_generator(scratch, gen)
+    genenv = None
+    if genrot is None:
+        genbin = build_generator(scratch, gen)
+    else:
+        import c12
+        genbin = os.path.join(scratch.dir, "genbin-rot-" + gen)
+        if not os.path.exists(genbin):
+            go_build(make_module(scratch, gen, "genmain", name="genmain-rot-" + gen), genbin, overlay=c12.maprot_overlay(scratch), tags="verifgen")
+        genenv = dict(goenv(), VERIF_MAPROT=str(genrot))
     manifest = os.path.join(outdir, "manifest-%s.json" % universe)
     cmd = [emit, "-universe", universe, "-gen", gen, "-pkgroot", PKGROOT, "-manifest", manifest]
     if registry:
@@ -401,7 +410,7 @@ def generate(scratch, gen, universe, outdir, registry=None, extra_files=None, re
             os.makedirs(os.path.dirname(p), exist_ok=True)
             open(p, "w").write(content)
     args = [genbin, manifest, target] + ([PKGROOT] if gen == "root" else [])
-    p = run(args, cwd=outdir, timeout=600, check=False)
+    p = run(args, cwd=outdir, timeout=600, check=False, env=genenv)
     if p.returncode != 0:
         raise Internal("generator failed on universe %s (%s):\n%s" % (universe, gen, p.stdout[-4000:]))
     if registry:
@@ -430,11 +439,11 @@ class BindingsBroken(Exception):
         self.gen, self.universe, self.text = gen, universe, text
 
 
-def build_with_bindings(scratch, gen, harness, universe, overlay=None, resources=False, race=False):
-    mod = make_module(scratch, gen, harness, name="%s-%s-%s" % (harness, universe, gen))
+def build_with_bindings(scratch, gen, harness, universe, overlay=None, resources=False, race=False, genrot=None):
+    mod = make_module(scratch, gen, harness, name="%s-%s-%s%s" % (harness, universe, gen, "" if genrot is None else "-genrot%d" % genrot))
     try:
         generate(scratch, gen, universe, mod, registry=os.path.join(mod, "zz_registry.go"),
-                 resources=os.path.join(mod, "zz_resources.go") if resources else None)
+                 resources=os.path.join(mod, "zz_resources.go") if resources else None, genrot=genrot)
     except Internal as e:
         if "generator failed on universe" in str(e):
             raise BindingsBroken(gen, universe, str(e)[-1500:])
